@@ -31,95 +31,85 @@ class Lock:
         fcntl.flock(self.f, fcntl.LOCK_UN)
         self.f.close()
 
-def _files():
+def _glob(base, pats):
     fs = []
-    for pat in ("src/*.cpp", "potassco/*.h", "potassco/program_opts/*.h", "potassco/program_opts/detail/*.h", "app/*.cpp"):
-        fs += sorted(glob.glob(os.path.join(REPO, pat)))
-    fs += sorted(glob.glob(os.path.join(HARNESS, "*.cpp"))) + sorted(glob.glob(os.path.join(HARNESS, "*.h")))
+    for pat in pats: fs += sorted(glob.glob(os.path.join(base, pat)))
     return fs
 
-def source_key():
-    h = hashlib.sha256()
-    h.update(" ".join(CXXFLAGS).encode())
-    for f in _files():
-        h.update(f.encode()); h.update(b"\0")
+def _hash(files, extra=""):
+    h = hashlib.sha256(); h.update(extra.encode())
+    for f in files:
+        h.update(os.path.basename(f).encode()); h.update(b"\0")
         with open(f, "rb") as fh: h.update(fh.read())
     return h.hexdigest()[:16]
 
 def _cc(src, obj, extra):
-    cmd = [CXX] + CXXFLAGS + extra + ["-I" + HARNESS, "-c", src, "-o", obj]
+    cmd = [CXX] + CXXFLAGS + extra + ["-I" + HARNESS, "-c", src, "-o", obj + ".tmp%d" % os.getpid()]
     r = subprocess.run(cmd, capture_output=True, text=True)
+    if r.returncode == 0: os.replace(obj + ".tmp%d" % os.getpid(), obj)
     return (src, r.returncode, r.stderr)
 
-def _gc(keep):
-    ds = sorted(glob.glob(os.path.join(BUILD, "h_*")), key=os.path.getmtime, reverse=True)
-    for d in ds[2:]:
-        if os.path.basename(d) != keep:
-            shutil.rmtree(d, ignore_errors=True)
+def _gc(d, keep):
+    fs = [f for f in glob.glob(os.path.join(d, "*")) if f not in keep]
+    if len(fs) < 300: return
+    fs.sort(key=os.path.getmtime)
+    for f in fs[:len(fs) - 150]:
+        try: os.remove(f)
+        except OSError: pass
 
 def build_harness(bsizes=(4096,), want_lpconvert=False):
-    """returns (dir, {B: harness_path}, {B: lpconvert_path}, error_or_None)."""
-    key = source_key()
-    d = os.path.join(BUILD, "h_" + key)
+    """Compiles what changed (objects are named by a hash of their source, all headers and the flags, so an
+    edited file is always recompiled and an unchanged one never).  returns (dir, {B: harness}, {B: lpconvert}, err)."""
+    d = os.path.join(BUILD, "obj")
+    repo_hdr = _glob(REPO, ("potassco/*.h", "potassco/program_opts/*.h", "potassco/program_opts/detail/*.h"))
+    harn_hdr = _glob(HARNESS, ("*.h",))
+    flags = " ".join(CXXFLAGS)
+    hk_repo = _hash(repo_hdr, flags)
+    hk_harn = _hash(repo_hdr + harn_hdr, flags)
     with Lock("harness"):
         os.makedirs(d, exist_ok=True)
-        os.utime(d)
-        jobs = []
-        libsrc = sorted(glob.glob(os.path.join(REPO, "src/*.cpp")))
-        hsrc = sorted(glob.glob(os.path.join(HARNESS, "*.cpp")))
-        def need(o): return not os.path.exists(o)
-        common = []
-        for s in libsrc:
-            if os.path.basename(s) in PER_B_LIB: continue
-            o = os.path.join(d, "lib_" + os.path.basename(s)[:-4] + ".o"); common.append(o)
-            if need(o): jobs.append((s, o, []))
-        hcommon = []
-        for s in hsrc:
-            if os.path.basename(s) in PER_B_HARNESS: continue
-            o = os.path.join(d, "h_" + os.path.basename(s)[:-4] + ".o"); hcommon.append(o)
-            if need(o): jobs.append((s, o, []))
+        jobs, used = [], set()
+        libsrc = _glob(REPO, ("src/*.cpp",))
+        hsrc = _glob(HARNESS, ("*.cpp",))
+        def obj(src, hk, extra=()):
+            o = os.path.join(d, "%s_%s.o" % (os.path.basename(src)[:-4], _hash([src], hk + " ".join(extra))))
+            used.add(o)
+            if not os.path.exists(o): jobs.append((src, o, list(extra)))
+            else: os.utime(o)
+            return o
+        common = [obj(s, hk_repo) for s in libsrc if os.path.basename(s) not in PER_B_LIB]
+        hcommon = [obj(s, hk_harn) for s in hsrc if os.path.basename(s) not in PER_B_HARNESS]
         perb = {}
         for B in bsizes:
-            objs = []
-            for s in libsrc:
-                if os.path.basename(s) in PER_B_LIB:
-                    o = os.path.join(d, "lib_%s_B%d.o" % (os.path.basename(s)[:-4], B)); objs.append(o)
-                    if need(o): jobs.append((s, o, ["-DPOTASSCO_VERIF_BUF_SIZE=%d" % B]))
-            hobjs = []
-            for s in hsrc:
-                if os.path.basename(s) in PER_B_HARNESS:
-                    o = os.path.join(d, "h_%s_B%d.o" % (os.path.basename(s)[:-4], B)); hobjs.append(o)
-                    if need(o): jobs.append((s, o, ["-DPOTASSCO_VERIF_BUF_SIZE=%d" % B]))
-            perb[B] = (objs, hobjs)
-        lpo = os.path.join(d, "app_lpconvert.o")
-        if want_lpconvert and need(lpo):
-            jobs.append((os.path.join(REPO, "app/lpconvert.cpp"), lpo, []))
+            ex = ("-DPOTASSCO_VERIF_BUF_SIZE=%d" % B,)
+            perb[B] = ([obj(s, hk_repo, ex) for s in libsrc if os.path.basename(s) in PER_B_LIB],
+                       [obj(s, hk_harn, ex) for s in hsrc if os.path.basename(s) in PER_B_HARNESS])
+        lpo = obj(os.path.join(REPO, "app/lpconvert.cpp"), hk_repo) if want_lpconvert else None
         if jobs:
-            with ThreadPoolExecutor(max_workers=16) as ex:
-                res = list(ex.map(lambda j: _cc(*j), jobs))
+            with ThreadPoolExecutor(max_workers=16) as ex_:
+                res = list(ex_.map(lambda j: _cc(*j), jobs))
             bad = [r for r in res if r[1] != 0]
             if bad:
-                for s, o, _ in jobs:
-                    if os.path.exists(o) and any(b[0] == s for b in bad): os.remove(o)
                 return d, {}, {}, "compile error:\n" + "\n".join(b[0] + "\n" + b[2][-3000:] for b in bad)
         hs, lps = {}, {}
+        def link(name, objs):
+            exe = os.path.join(d, "%s_%s" % (name, hashlib.sha256(" ".join(objs).encode()).hexdigest()[:16]))
+            used.add(exe)
+            if not os.path.exists(exe):
+                r = subprocess.run([CXX] + CXXFLAGS + ["-o", exe + ".tmp"] + objs, capture_output=True, text=True)
+                if r.returncode != 0: return None, "link error:\n" + r.stderr[-3000:]
+                os.replace(exe + ".tmp", exe)
+            else: os.utime(exe)
+            return exe, None
         for B in bsizes:
-            exe = os.path.join(d, "harness_B%d" % B)
-            if need(exe):
-                r = subprocess.run([CXX] + CXXFLAGS + ["-o", exe + ".tmp"] + hcommon + perb[B][1] + common + perb[B][0],
-                                   capture_output=True, text=True)
-                if r.returncode != 0: return d, {}, {}, "link error:\n" + r.stderr[-3000:]
-                os.rename(exe + ".tmp", exe)
+            exe, err = link("harness_B%d" % B, hcommon + perb[B][1] + common + perb[B][0])
+            if err: return d, {}, {}, err
             hs[B] = exe
             if want_lpconvert:
-                lp = os.path.join(d, "lpconvert_B%d" % B)
-                if need(lp):
-                    r = subprocess.run([CXX] + CXXFLAGS + ["-o", lp + ".tmp", lpo] + common + perb[B][0],
-                                       capture_output=True, text=True)
-                    if r.returncode != 0: return d, {}, {}, "link error:\n" + r.stderr[-3000:]
-                    os.rename(lp + ".tmp", lp)
+                lp, err = link("lpconvert_B%d" % B, [lpo] + common + perb[B][0])
+                if err: return d, {}, {}, err
                 lps[B] = lp
-        _gc("h_" + key)
+        _gc(d, used)
     return d, hs, lps, None
 
 def lake(args, timeout=3000):
